@@ -1158,9 +1158,6 @@ pub fn gen_c20<W: Write>(out: &mut W, thorough: bool, seed: u64) {
             }
         }
 
-        /* documents as written by to_json are of the model writer's form and load */
-        emit_written(out, &mut r, 12);
-
         /* loading from JSON text */
         for _ in 0..(if thorough { 160 } else { 320 }) {
             let mut doc = valid_doc(&mut r);
